@@ -91,6 +91,8 @@ class Check(CheckBase):
             'or half object is left; with a persistent fault the call raises (not RecursionError, never returns normally) after a '
             'bounded number of attempts counted at the service, the old object is intact. Repository level: snapshot + restore '
             'through the fake services under seeded transient fault schedules restore identical bytes. Retry waits are virtual. '
+            'Listings under an injected I/O error (also in the directory walkers of replicat.utils.fs, at the k-th directory) must raise or be '
+            'complete and duplicate-free; a request the service refuses (400/403 with a foreign code) is never reported as success. '
             'class = (backend, operation, fault kind, position class, count)')
     assumptions = ['attempt bounds: 100 for Local/S3, 400 for B2 (its retry layers nest) - far above any sane policy, so constants may be '
                    'tuned freely; an unbounded loop exceeds them within a second because retry waits are virtual', 'fake services are part of the trusted base']
